@@ -195,6 +195,18 @@ def r13_3(run, ok_rule=True):
     apps = [c for c in calls_in(pk) if callee_attr(c) == 'append' and isinstance(receiver(c), ast.Subscript) and dotted(receiver(c).value) == R]
     ok = bool(apps) and all(any(isinstance(x, ast.Name) and x.id == V for x in ast.walk(c.args[0])) for c in apps)
     run.ob('R13.3', pk, pk.node, 'further repeats are appended (arrival order)', ok, slot='repeat-append', message='appends: %s' % [src(c) for c in apps])
+    # ... at every flush site: the test "already a list" selects append on its true edge and the [earlier, later] pair on its false edge
+    il = [t for t in g.live if t.kind == 'test' and isinstance(t.ast, ast.Call) and dotted(t.ast.func) == 'isinstance' and len(t.ast.args) == 2 and
+          isinstance(t.ast.args[0], ast.Subscript) and dotted(t.ast.args[0].value) == R and dotted(t.ast.args[1]) == 'list']
+    run.floor('R13.3', 'flush sites (already-a-list tests)', len(il), 3)
+    for t in il:
+        on_t = [c for c in apps if any(g.edge_dominates(t, 'T', n) for n in g.nodes_containing(c))]
+        on_f = [s_ for s_ in lists if any(g.edge_dominates(t, 'F', n) for n in g.nodes_containing(s_))]
+        wrong = [c for c in apps if any(g.edge_dominates(t, 'F', n) for n in g.nodes_containing(c))] + \
+                [s_ for s_ in lists if any(g.edge_dominates(t, 'T', n) for n in g.nodes_containing(s_))]
+        run.ob('R13.3', pk, t.ast, 'a value that already is a list is appended to, anything else becomes [earlier, later]', bool(on_t) and bool(on_f) and not wrong,
+               slot='flush-site-legs', message='parse_keywords: at %s the list leg %s and the pair leg %s: the third and later values of a repeated key are lost (or the second '
+               'raises)' % (src(t.ast), 'appends' if on_t else 'does not append', 'builds the pair' if on_f else 'does not build [earlier, later]'))
     ins = [c for c in calls_in(pk) if callee_attr(c) == 'insert' and isinstance(receiver(c), ast.Subscript)]
     run.ob('R13.3', pk, pk.node, 'no front insertion of repeated values', not ins, slot='no-insert', message='repeated values inserted with %s' % [src(c) for c in ins])
     # the final flush after the loop mirrors the in-loop flush
@@ -433,6 +445,9 @@ RULES = [
 from ..selftest import M  # noqa: E402
 F = 'txtorcon/torcontrolprotocol.py'
 MUTANTS = [
+    M('one-line-list-test-negated', F, "                    if isinstance(rtn[key], list):\n                        rtn[key].append(value)\n", "                    if not isinstance(rtn[key], list):\n                        rtn[key].append(value)\n", ['R13.3']),
+    M('one-line-append-dropped', F, "                    if isinstance(rtn[key], list):\n                        rtn[key].append(value)\n", "                    if isinstance(rtn[key], list):\n                        pass\n", ['R13.3']),
+    M('one-line-pair-dropped', F, "                        rtn[key].append(value)\n                    else:\n                        rtn[key] = [rtn[key], value]\n", "                        rtn[key].append(value)\n", ['R13.3']),
     M('regex-split-greedy', F, ["def parse_keywords(lines, multiline_values=True, key_hints=None):", "        sp = line.split('=', 1)\n        found_key = ('=' in line and ' ' not in sp[0])\n        if found_key and key_hints and sp[0] not in key_hints:", "            (key, value) = line.split('=', 1)\n"],
       ["_KW = re.compile(r'^(\\S+)=(.*)$')\n\n\ndef parse_keywords(lines, multiline_values=True, key_hints=None):", "        m = _KW.match(line)\n        found_key = m is not None\n        if found_key and key_hints and m.group(1) not in key_hints:", "            (key, value) = m.groups()\n"], ['R13.4']),
     M('oneline-mode-overwrites', F, "            elif multiline_values is False:\n                # (same as above: an earlier line for this key must\n                # not be lost)\n                if key in rtn:\n                    if isinstance(rtn[key], list):\n                        rtn[key].append(value)\n                    else:\n                        rtn[key] = [rtn[key], value]\n                else:\n                    rtn[key] = value\n", "            elif multiline_values is False:\n                rtn[key] = value\n", ['R13.3']),
